@@ -147,3 +147,60 @@ pub fn c18_record_casts() {
     vcheck!(u.0 == tr.t && u.1 == bid && u.2 == tr.price && u.3 == tr.vol && u.4 == tr.active_order_id && u.5 == tr.passive_order_id, "PY.trade_tuple_is_time_side_price_volume_active_passive");
     vcover!(t.1 == 4 && !t.0, "cover.rejected_ask");
 }
+
+/// stand-ins for the error path of `place_order`: message formatting (`OrderError::to_string`, i.e.
+/// `core::fmt::write` over symbolic integers - out of CBMC's reach) produces an empty message, and
+/// the lazy construction of the Python exception object is counted and yields an inert value
+pub fn stub_fmt_write(_out: &mut dyn core::fmt::Write, _args: core::fmt::Arguments<'_>) -> core::fmt::Result {
+    Ok(())
+}
+pub static mut ERRS_BUILT: usize = 0;
+pub fn stub_new_err_counted<A: pyo3::PyErrArguments + Send + Sync + 'static>(args: A) -> PyErr {
+    unsafe {
+        ERRS_BUILT += 1;
+    }
+    core::mem::forget(args);
+    unsafe { core::mem::zeroed() }
+}
+
+/// C18: an off-grid price makes `place_order` raise (exactly one ValueError is built) and leaves the
+/// wrapped book exactly as it was; an on-grid price or a market order is forwarded as before
+#[kani::proof]
+#[kani::unwind(4)]
+#[kani::stub(pyo3::exceptions::PyValueError::new_err, stub_new_err_counted)]
+#[kani::stub(core::fmt::write, stub_fmt_write)]
+pub fn c18_orderbook_place_any_price_tick3_off() {
+    let p: Plain<3> = gen_plain::<3>(2, GenCfg { tick: 3, ..OFF });
+    let mut w = OrderBook(build::<3, 10>(&p, 0));
+    let mut r = p;
+    let bid = any_bool();
+    let vol = any_u32();
+    let trader = any_u32();
+    let price = if any_bool() { Some(any_u32()) } else { None };
+    assume_valid_incoming(&p, bid, vol, price, false);
+    if let Some(x) = price {
+        assume(x > 0 && x < Price::MAX);
+    }
+    let on_grid = match price {
+        Some(x) => x % 3 == 0,
+        None => true,
+    };
+    let got = w.place_order(bid, vol, trader, price);
+    let built = unsafe { ERRS_BUILT };
+    if on_grid {
+        let exp = ref_create(&mut r, bid, vol, trader, price);
+        ref_place(&mut r, 2);
+        let same_id = match (&got, exp) {
+            (Ok(g), Some(e)) => *g == e,
+            _ => false,
+        };
+        vcheck!(same_id && built == 0, "PY.place_order_returns_the_cores_id");
+    } else {
+        vcheck!(got.is_err() && built == 1, "PY.off_grid_price_raises_one_value_error");
+    }
+    core::mem::forget(got);
+    vcheck!(table_matches(&w.0, &r), "PY.wrapper_state_equals_core_driven_by_the_same_call_and_is_unchanged_after_an_error");
+    vcover!(!on_grid, "cover.off_grid_price_rejected");
+    vcover!(on_grid && price.is_some(), "cover.on_grid_limit_order_placed");
+    core::mem::forget(w);
+}
